@@ -8,3 +8,5 @@ pub use link_point::*;
 pub use path_res_coeff::*;
 pub use path_tpc::*;
 pub use train_params::*;
+#[cfg(feature = "verif-hooks")]
+pub use speed_point::*;
